@@ -139,7 +139,7 @@ func randDID(r *hx.Rng) *J {
 		s := obj(kv("id", str([]string{didID + "#s", "#s", absBase + "#s"}[r.Intn(3)]+fmt.Sprint(i))),
 			kv("type", []*J{str("LinkedDomains"), arr(str("A"), str("B")), str("did-communication")}[r.Intn(3)]))
 
-		form := r.Intn(4)
+		form := []int{0, 0, 1, 1, 2, 2, 2, 3}[r.Intn(8)]
 		if f.big && form == 3 {
 			form = 0 // one defect-prone feature per document
 		}
@@ -150,8 +150,24 @@ func randDID(r *hx.Rng) *J {
 		case 1:
 			s.O = append(s.O, kv("serviceEndpoint", obj(kv("origins", arr(str("https://ex.com"))))))
 		case 2:
-			s.O = append(s.O, kv("serviceEndpoint", arr(obj(kv("uri", str("https://ex.com/v2")), kv("accept", arr(str("didcomm/v2"))),
-				kv("routingKeys", arr(str("did:ex:r#1")))))))
+			e := obj(kv("uri", str("https://ex.com/v2")))
+			if r.Bool() {
+				e.O = append(e.O, kv("accept", arr(str("didcomm/v2"))))
+			}
+
+			if r.Bool() {
+				// routing keys inside the endpoint entry, relative and absolute
+				l := arr()
+				for j := 0; j < 1+r.Intn(2); j++ {
+					frag := fmt.Sprintf("#k%d", 1+r.Intn(4))
+					l.A = append(l.A, str([]string{frag, didID + frag, absBase + frag, "did:ex:r" + frag}[r.Intn(4)]))
+				}
+
+				e.O = append(e.O, kv("routingKeys", l))
+			}
+
+			shuffle(r, e.O)
+			s.O = append(s.O, kv("serviceEndpoint", arr(e)))
 		default:
 			// several endpoints / extra members of an endpoint (known finding: only the first entry's uri, accept
 			// and routingKeys are kept)
@@ -168,8 +184,23 @@ func randDID(r *hx.Rng) *J {
 			s.O = append(s.O, kv("priority", num(int64(r.Intn(3)))))
 		}
 
-		if r.Intn(3) == 0 {
-			s.O = append(s.O, kv("recipientKeys", arr(str([]string{didID + "#k1", "#k1"}[r.Intn(2)]))), kv("routingKeys", arr(str("did:ex:r#1"))))
+		// key references of the service: relative, id-prefixed, base-prefixed and foreign spellings
+		keyRefs := func() *J {
+			l := arr()
+			for j := 0; j < 1+r.Intn(3); j++ {
+				frag := fmt.Sprintf("#k%d", 1+r.Intn(4))
+				l.A = append(l.A, str([]string{frag, didID + frag, absBase + frag, "did:ex:r" + frag}[r.Intn(4)]))
+			}
+
+			return l
+		}
+
+		if r.Intn(2) == 0 {
+			s.O = append(s.O, kv("recipientKeys", keyRefs()))
+		}
+
+		if r.Intn(2) == 0 {
+			s.O = append(s.O, kv("routingKeys", keyRefs()))
 		}
 
 		for _, m := range randMembers(r, 3, r.Intn(4), &f) {
@@ -404,18 +435,69 @@ func runDID(kind string, doc *J, note string) {
 			}
 
 			if s.coqable() && o.coqable() {
-				coq = append(coq, fmt.Sprintf("CSVC %s %s %s", coqObj(typed.O), coqObj(s.O), coqObj(o.O)))
+				coq = append(coq, fmt.Sprintf("CSVC2 %s %s %s %s", hx.CoqString(didID), hx.CoqString(base), coqObj(s.O), coqObj(o.O)))
 			}
 
-			// key lists: relative and absolute spellings of one id are the same reference
+			// key lists: a reference keeps its spelling (relative stays relative); only when one list spells the same
+			// key both ways does the implementation settle on one spelling, which is then compared as the reference it is
 			ns, no := s.clone(), o.clone()
 
-			for _, x := range []*J{ns, no} {
-				for _, k := range []string{"recipientKeys", "routingKeys"} {
-					if l := x.get(k); l != nil && l.K == jArr {
-						for _, e := range l.A {
+			for _, k := range []string{"recipientKeys", "routingKeys"} {
+				l := ns.get(k)
+				if l == nil || l.K != jArr {
+					continue
+				}
+
+				spell := map[string]string{}
+				mixed := false
+
+				for _, e := range l.A {
+					if e.K != jStr {
+						continue
+					}
+
+					if p, ok := spell[abs(e.S)]; ok && p != e.S {
+						mixed = true
+					}
+
+					spell[abs(e.S)] = e.S
+				}
+
+				if !mixed {
+					continue
+				}
+
+				rec.Dist = append(rec.Dist, "did:service-key-spelled-both-ways")
+
+				for _, x := range []*J{ns, no} {
+					if lx := x.get(k); lx != nil && lx.K == jArr {
+						for _, e := range lx.A {
 							if e.K == jStr {
 								e.S = abs(e.S)
+							}
+						}
+					}
+				}
+			}
+
+			// routing keys inside a DIDComm V2 endpoint entry are written relative when the service-level routingKeys
+			// spell the same key relatively (one table of spellings serves both lists): the same reference
+			if sl := s.get("routingKeys"); sl != nil && sl.K == jArr {
+				relSpelled := map[string]bool{}
+
+				for _, e := range sl.A {
+					if e.K == jStr && strings.HasPrefix(e.S, "#") {
+						relSpelled[abs(e.S)] = true
+					}
+				}
+
+				for _, x := range []*J{ns, no} {
+					if ep := x.get("serviceEndpoint"); ep != nil && ep.K == jArr && len(ep.A) > 0 {
+						if l := ep.A[0].get("routingKeys"); l != nil && l.K == jArr {
+							for _, e := range l.A {
+								if e.K == jStr && relSpelled[abs(e.S)] {
+									e.S = abs(e.S)
+								}
 							}
 						}
 					}
